@@ -195,7 +195,11 @@ class Exec(StmtMixin):
         c = self.contract
         line = r.line or self.info["lineno"]
         match = None
+        if r.exc in c.raises:
+            match = (r.exc, c.raises[r.exc])        # the most specific clause wins, whatever the order of declaration
         for exc, spec in c.raises.items():
+            if match is not None:
+                break
             if S.exc_is_a(r.exc, exc) or (r.exc == "AnyException" and exc == "AnyException"):
                 match = (exc, spec)
                 break
